@@ -132,7 +132,12 @@ def subset(cell):
     cfg = dict(DEFAULTS)
     cfg.update(over)
     before = pb.Calculator()
-    calc = pb.Calculator(_config=dict(over)) if over else pb.Calculator()
+    given = dict(over)
+    calc = pb.Calculator(_config=given) if over else pb.Calculator()
+    # the settings are those GIVEN AT CREATION: editing the caller's dict afterwards must not reach the calculator
+    for k in list(given):
+        given[k] = DEFAULTS[k]
+    given['cMinimumVelocity'] = 2500.0
     after = pb.Calculator()
     out = []
     o, obs = observe(calc, cfg)
